@@ -4,9 +4,9 @@ CONSTANTS
   Conn <- MCConn
   Home <- MCHome
   Addr = {"a", "b"}
-  Attr = {"e1", "d1"}
-  AllowReorder = FALSE
-  MaxOps = 4
+  Attr = {"e1"}
+  AllowReorder = TRUE
+  MaxOps = 3
   Defect_StaleClientIndexOnSync = FALSE
 INVARIANTS OwnerIndexExact
 PROPERTIES Converges
